@@ -214,6 +214,12 @@ type Target struct {
 	// left out of the Gen file (with the reason in a comment), so only the Coq files of the
 	// property that uses it stop compiling.
 	Soft bool
+	// Pkg: package (by name) that holds Func; default "tchannel" (the root package).
+	Pkg string
+	// After (with Stmt): translate the statements that FOLLOW the selected statement in its
+	// enclosing block, up to the end of that block (Rest = falling out of the block; "" when the
+	// block is the function body and must end in a return).
+	After bool
 }
 
 type fnctx struct {
@@ -719,6 +725,32 @@ func (t *translator) findStmt(fd *ast.FuncDecl, prefix string, name string) ast.
 	return found[0]
 }
 
+// stmtsAfter returns the statements that follow sel in the block that directly contains it.
+func (t *translator) stmtsAfter(fd *ast.FuncDecl, sel ast.Stmt, name string) []ast.Stmt {
+	var out []ast.Stmt
+	found := false
+	ast.Inspect(fd.Body, func(n ast.Node) bool {
+		var list []ast.Stmt
+		switch b := n.(type) {
+		case *ast.BlockStmt:
+			list = b.List
+		case *ast.CaseClause:
+			list = b.Body
+		}
+		for i, st := range list {
+			if st == sel {
+				out = append([]ast.Stmt(nil), list[i+1:]...)
+				found = true
+			}
+		}
+		return !found
+	})
+	if !found || len(out) == 0 {
+		failf("%s: no statements follow the selected statement of %s", t.pos(fd), name)
+	}
+	return out
+}
+
 func (t *translator) emitFunc(tg *Target, w *bytes.Buffer) {
 	fd, ok := t.funcs[tg.Func]
 	if !ok {
@@ -729,9 +761,15 @@ func (t *translator) emitFunc(tg *Target, w *bytes.Buffer) {
 	}
 	var scope ast.Node = fd.Body
 	var sel ast.Stmt
+	var selList []ast.Stmt
 	if tg.Stmt != "" {
 		sel = t.findStmt(fd, tg.Stmt, tg.Func)
 		scope = sel
+		selList = []ast.Stmt{sel}
+		if tg.After {
+			selList = t.stmtsAfter(fd, sel, tg.Func)
+			scope = &ast.BlockStmt{List: selList}
+		}
 	}
 	ast.Inspect(scope, func(n ast.Node) bool {
 		switch n.(type) {
@@ -743,7 +781,7 @@ func (t *translator) emitFunc(tg *Target, w *bytes.Buffer) {
 	c := &fnctx{t: t, tg: tg, fd: fd}
 	var body string
 	if sel != nil {
-		body = c.stmts([]ast.Stmt{sel}, tg.Rest)
+		body = c.stmts(selList, tg.Rest)
 		if tg.Pre != "" {
 			body = tg.Pre + "\n  " + body
 		}
@@ -756,7 +794,11 @@ func (t *translator) emitFunc(tg *Target, w *bytes.Buffer) {
 	if sel != nil {
 		sp := t.fset.Position(sel.Pos())
 		se := t.fset.Position(sel.End())
-		fmt.Fprintf(w, "   statement at lines %d-%d starting with: %s\n   falling out of it  =>  %s\n", sp.Line, se.Line, tg.Stmt, tg.Rest)
+		if tg.After {
+			fmt.Fprintf(w, "   the statements AFTER the statement at lines %d-%d (to the end of its block), which starts with: %s\n   falling out of the block  =>  %s\n", sp.Line, se.Line, tg.Stmt, tg.Rest)
+		} else {
+			fmt.Fprintf(w, "   statement at lines %d-%d starting with: %s\n   falling out of it  =>  %s\n", sp.Line, se.Line, tg.Stmt, tg.Rest)
+		}
 		if tg.Pre != "" {
 			fmt.Fprintf(w, "   prefix: %s\n", tg.Pre)
 		}
@@ -1054,6 +1096,7 @@ func main() {
 
 	// GenFuncs_*.v
 	byFile := map[string][]*Target{}
+	trByPkg := map[string]*translator{}
 	order := []string{}
 	for i := range targets {
 		tg := &targets[i]
@@ -1074,7 +1117,17 @@ func main() {
 		fmt.Fprintf(&w, header, *repo)
 		fmt.Fprintf(&w, "From Verif Require Import Gen.GenConsts.\n")
 		for _, tg := range byFile[f] {
-			root.emitFuncSoft(tg, &w)
+			tr := root
+			if tg.Pkg != "" && tg.Pkg != "tchannel" {
+				if byName[tg.Pkg] == nil {
+					failf("target %s: package %s not loaded (mPackages)", tg.Out, tg.Pkg)
+				}
+				if trByPkg[tg.Pkg] == nil {
+					trByPkg[tg.Pkg] = newTranslator(byName[tg.Pkg])
+				}
+				tr = trByPkg[tg.Pkg]
+			}
+			tr.emitFuncSoft(tg, &w)
 		}
 		writeIfChanged(filepath.Join(*out, f+".v"), w.Bytes())
 		fmt.Printf("go2v: %s.v %d functions\n", f, len(byFile[f]))
